@@ -224,6 +224,35 @@ def r4(p, rep):
                 if ec.endswith("._enter") and xc.endswith("._exit") and ec[: -len("._enter")] == xc[: -len("._exit")]:
                     pair_ok = True
         rep.add("C06.R4", f"{c.qualname}:pair", site, pair_ok, why)
+        # nothing may fail between the push and the return of __enter__: if __enter__ raises, the with statement
+        # never calls __exit__, so an entry pushed before the failing statement stays on the stack for good
+        pushes = [n for n in enter_effects if any(x.endswith((".append", ".enter", ".__enter__", "._enter")) for x in container_paths(en, n.value))]
+        if pushes:
+            ecfg = CFG(en.node)
+            PURE = {"len", "isinstance", "id", "hasattr", "type", "list", "tuple", "dict", "set"}
+            late = []
+            for psh in pushes:
+                pn = ecfg.node_for(psh)
+                if pn is None:
+                    continue
+                seen, todo = set(), list(pn.succ)
+                while todo:
+                    q = todo.pop()
+                    if q.id in seen:
+                        continue
+                    seen.add(q.id)
+                    todo.extend(q.succ)
+                    if q.ast is None or q.kind not in ("stmt", "test", "loop") or q.ast in pushes:
+                        continue
+                    exprs = [q.test] if q.kind == "test" and getattr(q, "test", None) is not None else [q.ast]
+                    for e in exprs:
+                        for x in walk_no_nested(e, include_self=True):
+                            if isinstance(x, ast.Call) and not (isinstance(x.func, ast.Name) and x.func.id in PURE) and x is not psh.value:
+                                # a failing statement inside a try whose handler undoes the push is fine
+                                late.append(x)
+            late = [x for x in late if not any(h for t in common.enclosing_tries(x, en.node) for h in t.handlers)]
+            ok2 = not late
+            rep.add("C06.R4", f"{c.qualname}:__enter__:nothing-fails-after-push", f"{c.module.rel}:{en.node.lineno}", ok2, "the push is the last thing __enter__ does that can fail" if ok2 else f"`{norm(late[0])[:60]}` runs after the push `{norm(pushes[0].value)[:40]}` in __enter__: if it raises, __exit__ is never called and the pushed entry stays on the stack, changing every later call")
     # manual _enter / _exit pairs are joined by try/finally
     n_manual = 0
     for f in p.funcs.values():
